@@ -156,10 +156,10 @@ def memorize(collection, engine):
         return collection
 
     yielded = []
+    seq = iter(collection)
 
     class RememberingIterator:
         def __init__(self):
-            self.seq = iter(collection)
             self.index = 0
 
         def __iter__(self):
@@ -170,7 +170,7 @@ def memorize(collection, engine):
                 self.index += 1
                 return yielded[self.index - 1]
             else:
-                val = next(self.seq)
+                val = next(seq)
                 yielded.append(val)
                 limit_memory_usage(engine, (1, yielded))
                 self.index += 1
